@@ -394,6 +394,7 @@ func JSON(v any) []byte {
 // minimiser (delta debugging on the case); fn returns a smaller case that still
 // shows the same signature, or nil to keep the current one.
 func (c *Collector) MinimizeAll(fn func(sig string, cs []byte) []byte) {
+	minDeadline = time.Now().Add(time.Duration(EnvInt("VERIF_MINIMIZE_TOTAL_S", 150)) * time.Second)
 	c.mu.Lock()
 	todo := []*Violation{}
 	for _, v := range c.viol {
@@ -429,4 +430,26 @@ func (c *Collector) Inflight(cs []byte) {
 	}
 	k, _ := Shard()
 	_ = os.WriteFile(filepath.Join(out, fmt.Sprintf("inflight-%s-%d.json", os.Getenv("VERIF_PHASE"), k)), cs, 0o644)
+}
+
+var minDeadline time.Time
+
+// Bounded wraps the "still fails" predicate of a minimiser with a time budget:
+// once the budget of this call (default 45 s) or of the whole MinimizeAll pass
+// is used up it reports false, so that shrinking stops and the smallest case
+// found so far is kept. Large (bulk) cases would otherwise be re-executed
+// thousands of times.
+func Bounded[T any](f func(T) bool) func(T) bool {
+	dl := time.Now().Add(time.Duration(EnvInt("VERIF_MINIMIZE_S", 45)) * time.Second)
+	if !minDeadline.IsZero() && minDeadline.Before(dl) {
+		dl = minDeadline
+	}
+	first := true
+	return func(x T) bool {
+		if !first && time.Now().After(dl) {
+			return false
+		}
+		first = false
+		return f(x)
+	}
 }
